@@ -139,3 +139,23 @@ Definition int_mem (z : Z) (X : itv xq) : Prop := mem xq_cmp (zq z) X.
 Definition int_mem_set (z : Z) (s : list (itv xq)) : Prop := mem_set xq_cmp (zq z) s.
 (* the sum of the per-interval integer counts *)
 Definition sum_counts (s : list (itv xq)) : Z := fold_right (fun X acc => itv_count_int X + acc) 0 s.
+
+(* ---- the integer members of an interval, read off the (is_infinity, is_integer, floor, ceiling) view of its ends *)
+Definition epi_low (e : epi) (o : bool) (z : Z) : Prop :=
+  match e with EPInf => True | EPFin b fl ce => (if b then fl + (if o then 1 else 0) else ce) <= z end.
+Definition epi_up (e : epi) (o : bool) (z : Z) : Prop :=
+  match e with EPInf => True | EPFin b fl ce => z <= (if b then fl - (if o then 1 else 0) else fl) end.
+Definition ei_mem (z : Z) (X : itv epi) : Prop :=
+  epi_low (ia X) (ia_open X) z /\ epi_up (if ipt X then ia X else ib X) (ib_open X) z.
+(* consistency of a view: ceiling = floor for an integer, floor + 1 otherwise *)
+Definition epi_wf (e : epi) : Prop :=
+  match e with EPInf => True | EPFin b fl ce => if b then ce = fl else ce = fl + 1 end.
+(* consistency of the views of an interval a < b (or a point): the least integer above a is at most one more
+   than the greatest integer below b *)
+Definition view_wf (X : itv epi) : Prop :=
+  epi_wf (ia X) /\ epi_wf (ib X) /\
+  if ipt X then ia_open X = false /\ ib_open X = false /\ ia X <> EPInf
+  else match ia X, ib X with
+       | EPFin ba fa ca, EPFin bb fb cb => (if ba then fa + 1 else ca) <= (if bb then fb - 1 else fb) + 1
+       | _, _ => True
+       end.
